@@ -330,8 +330,16 @@ class IntegralGenerator:
                 continue
             v = attr["expression"]
 
-            # Generate code only if the expression is not already in cache
-            if not self.get_var(quadrature_rule, domain, v):
+            # Generate code only if the expression is not already in cache.
+            # A value that varies over the points of this rule is looked up in
+            # this rule's loop scope only: another rule of the same kernel (e.g.
+            # a one-point rule) may have classified the same expression as
+            # piecewise and defined it, at its own point, before the loops.
+            if mode == "varying" and not v._ufl_is_literal_:
+                cached = self.scopes[(domain, quadrature_rule)].get(v)
+            else:
+                cached = self.get_var(quadrature_rule, domain, v)
+            if not cached:
                 if v._ufl_is_literal_:
                     vaccess = L.ufl_to_lnodes(v)
                 elif mt := attr.get("mt"):
